@@ -686,6 +686,21 @@ class SR:
             return float(o)
         return _div(o, s)
 
+    # floor division and remainder as Python defines them for floats: a // b = floor(a / b), a % b = a - (a // b) * b
+    def __floordiv__(s, o):
+        q = _div(s, o)
+        return SR(z3.ToReal(z3.ToInt(lift(q))))
+
+    def __rfloordiv__(s, o):
+        q = _div(o, s)
+        return SR(z3.ToReal(z3.ToInt(lift(q))))
+
+    def __mod__(s, o):
+        return s - (s // o) * o
+
+    def __rmod__(s, o):
+        return o - (o // s) * s
+
     def __pow__(s, o):
         if isinstance(o, (int, np.integer)) and 0 <= o <= 8:
             e = z3.RealVal(1)
